@@ -186,7 +186,9 @@ where
     }
     fn deserialize(buf: &mut &[u8]) -> Result<Self, String> {
         let len = usize::deserialize(buf)?;
-        let mut res = Vec::with_capacity(len);
+        // `len` is untrusted: never reserve more than the remaining input could
+        // possibly encode (every element consumes at least one byte).
+        let mut res = Vec::with_capacity(len.min(buf.len()));
         for _ in 0..len {
             res.push(T::deserialize(buf)?);
         }
